@@ -163,6 +163,7 @@ func helpOpenOrCreateManifestFile(dir string, readOnly bool, extMagic uint16,
 
 	if !readOnly {
 		// Truncate file so we don't have a half-written entry at the end.
+		y.VerifIO("truncate", path)
 		if err := fp.Truncate(truncOffset); err != nil {
 			_ = fp.Close()
 			return nil, Manifest{}, err
@@ -221,11 +222,13 @@ func (mf *manifestFile) addChanges(changesParam []*pb.ManifestChange, opt Option
 		binary.BigEndian.PutUint32(lenCrcBuf[0:4], uint32(len(buf)))
 		binary.BigEndian.PutUint32(lenCrcBuf[4:8], crc32.Checksum(buf, y.CastagnoliCrcTable))
 		buf = append(lenCrcBuf[:], buf...)
+		y.VerifIO("write", filepath.Join(mf.directory, ManifestFilename))
 		if _, err := mf.fp.Write(buf); err != nil {
 			return err
 		}
 	}
 
+	y.VerifIO("fsync", filepath.Join(mf.directory, ManifestFilename))
 	return syncFunc(mf.fp)
 }
 
@@ -241,6 +244,7 @@ const badgerMagicVersion = 8
 func helpRewrite(dir string, m *Manifest, extMagic uint16) (*os.File, int, error) {
 	rewritePath := filepath.Join(dir, manifestRewriteFilename)
 	// We explicitly sync.
+	y.VerifIO("open", rewritePath)
 	fp, err := y.OpenTruncFile(rewritePath, false)
 	if err != nil {
 		return nil, 0, err
@@ -271,10 +275,12 @@ func helpRewrite(dir string, m *Manifest, extMagic uint16) (*os.File, int, error
 	binary.BigEndian.PutUint32(lenCrcBuf[4:8], crc32.Checksum(changeBuf, y.CastagnoliCrcTable))
 	buf = append(buf, lenCrcBuf[:]...)
 	buf = append(buf, changeBuf...)
+	y.VerifIO("write", rewritePath)
 	if _, err := fp.Write(buf); err != nil {
 		fp.Close()
 		return nil, 0, err
 	}
+	y.VerifIO("fsync", rewritePath)
 	if err := fp.Sync(); err != nil {
 		fp.Close()
 		return nil, 0, err
@@ -285,6 +291,7 @@ func helpRewrite(dir string, m *Manifest, extMagic uint16) (*os.File, int, error
 		return nil, 0, err
 	}
 	manifestPath := filepath.Join(dir, ManifestFilename)
+	y.VerifIO("rename", rewritePath+"\x00"+manifestPath)
 	if err := os.Rename(rewritePath, manifestPath); err != nil {
 		return nil, 0, err
 	}
